@@ -127,11 +127,15 @@ class _File:
         return False
 
 
-class _Loader:
+class _Loader(_RealLoader):
+    """the REAL SourceFileLoader, counting one step per load whichever protocol the code under test uses
+    (load_module(), or spec_from_loader + exec_module)"""
+
     def __init__(self, env, name, path):
+        _RealLoader.__init__(self, name, path)
         self._env, self._name, self._path = env, name, path
 
-    def load_module(self):
+    def load_module(self, fullname=None):
         self._env.tick("load")
         importlib.invalidate_caches()
         try:
@@ -141,6 +145,16 @@ class _Loader:
             self._env.loaded.append(self._name)
         self._env.after()
         return m
+
+    def exec_module(self, module):
+        self._env.tick("load")
+        importlib.invalidate_caches()
+        try:
+            with untraced():
+                _RealLoader.exec_module(self, module)
+        finally:
+            self._env.loaded.append(self._name)
+        self._env.after()
 
 
 class Env:
